@@ -420,18 +420,20 @@ void gen_wrapper(rng &r, const std::string &tier)
         for (int bi = 0; bi < 2; bi++)
             for (uint64_t lo = part * span; lo < (part + 1) * span; lo += CH)
                 P("sweep %s %u %016llx %llu\n", KNAME[K2[ki]], B2[bi], (unsigned long long)extend(lo, 32, K2[ki] == I32), (unsigned long long)CH);
-    // round 3b: base 8 and base 36 - EVERY 32-bit value (signed and unsigned), like base 10 and 16 above
+    // round 3b: bases 2, 8 and 36 over the whole 32-bit space in windows of 2^22 values, in each selected window the
+    // seed's own 2^18 consecutive values (the 16 seeds of a run together: the whole window).  Base 8 and base 36:
+    // every second window (round 3: every eighth) - VERIF_SEED s and s+1 together cover EVERY 32-bit value, signed
+    // and unsigned; base 2 (32-character texts, three times the cost per value): every fourth window - four
+    // consecutive VERIF_SEEDs together are exhaustive.  (bin/check runs the seeds VERIF_SEED*1000 + 0..15.)
+    // All of it in one run costs 12 CPU-minutes per seed; on the shared machine that did not fit the deadline.
     static const unsigned B3[2] = {8u, 36u};
     for (int ki = 0; ki < 2; ki++)
         for (int bi = 0; bi < 2; bi++)
-            for (uint64_t lo = part * span; lo < (part + 1) * span; lo += CH)
-                P("sweep %s %u %016llx %llu\n", KNAME[K2[ki]], B3[bi], (unsigned long long)extend(lo, 32, K2[ki] == I32), (unsigned long long)CH);
-    // base 2 (32-character texts, three times the cost per value): every second window of 2^22 values, in each the
-    // seed's own 2^18 consecutive ones - half of the 32-bit space per kind over the 16 seeds (round 3: one eighth);
-    // which half depends on VERIF_SEED (bin/check runs the seeds VERIF_SEED*1000 + 0..15): seeds 1 and 2 together
-    // cover every 32-bit value in base 2 as well
+            for (uint64_t win = 0; win < (1ull << 32); win += (1ull << 22))
+                if ((win >> 22) % 2 == (g_seed / 1000 + bi + ki) % 2)
+                    P("sweep %s %u %016llx %llu\n", KNAME[K2[ki]], B3[bi], (unsigned long long)extend(win + part * CH, 32, K2[ki] == I32), (unsigned long long)CH);
     for (int ki = 0; ki < 2; ki++)
         for (uint64_t win = 0; win < (1ull << 32); win += (1ull << 22))
-            if ((win >> 22) % 2 == (g_seed / 1000 + ki) % 2)
+            if ((win >> 22) % 4 == (g_seed / 1000 + 2 * ki) % 4)
                 P("sweep %s 2 %016llx %llu\n", KNAME[K2[ki]], (unsigned long long)extend(win + part * CH, 32, K2[ki] == I32), (unsigned long long)CH);
 }
